@@ -206,6 +206,9 @@ pub fn run_batch(progs: &[Prog], report: &mut Report, seen: &mut HashSet<String>
         if r.nontrivial && seen.insert(key) {
             report.distinct_nontrivial += 1;
         }
+        for k in p.guard_kinds() {
+            report.count(&format!("programs_with_guard_{k}"));
+        }
         report.count(&format!("size_{:02}", (p.size() / 4) * 4));
         report.count(&format!("ifs_{}", p.count_ifs().min(6)));
         if report.samples.len() < 3 && r.nontrivial {
@@ -219,6 +222,10 @@ pub fn corpus() -> Vec<&'static str> {
         // fixed finding C15-empty-else (6234bcf): the else path of `if c then … else end` was dropped
         "1,I1,{,I,y,0,table,0,{,P,0,0,},e,{,},P,1,0,}",
         "2,-,-,{,I,z,1,1,{,A,0,I2,},e,{,},P,0,0,P,1,1,}",
+        // open finding C15-stale-stored-type: local t0 = type(v0); v0 = "s1"; if t0 == "number" then p(v0) end
+        "1,I1,{,A,0,S1,I,t,0,number,number,0,{,P,0,0,},n,}",
+        // x == literal / x ~= literal, stored type() on a variable that is never assigned
+        "2,I1,S2,{,A,0,I2,I,q,0,I2,0,{,P,0,0,},e,{,P,1,0,},I,q,0,S1,1,{,P,2,0,},n,I,t,1,string,string,0,{,P,3,1,},e,{,P,4,1,},}",
         // direct guards
         "1,N,{,A,0,I1,P,0,0,I,v,0,{,P,1,0,},e,{,P,2,0,},}",
         "1,S1,{,I,y,0,string,0,{,P,0,0,},e,{,P,1,0,},A,0,N,I,z,0,0,{,P,2,0,},e,{,P,3,0,},P,4,0,}",
@@ -240,6 +247,8 @@ pub fn exhaustive_small() -> Vec<Prog> {
         Cond::TypeIs(0, 3, true, false),
         Cond::IsNil(0, false, false),
         Cond::IsNil(0, true, false),
+        Cond::EqLit(0, Lit::Int(1), false, false),
+        Cond::EqLit(0, Lit::Str(1), true, false),
     ];
     let mut stmts: Vec<Stmt> = lits.iter().map(|l| Stmt::Assign(0, l.clone())).collect();
     for c in &conds {
